@@ -22,15 +22,51 @@ Definition K (ih : N) (ivs : valset) (s : kstate) : Prop := INV ih ivs s /\ pok 
 Definition ends_hdr (ws : list wr) : bool :=
   match rev ws with WHdr _ _ :: _ => true | _ => false end.
 
+(** stores only move forward: no committed header is lost, the stored position does not regress *)
+Definition n_vh (x : N * N * N * N) : N := fst (fst (fst x)).
+Definition n_vr (x : N * N * N * N) : N := snd (fst (fst x)).
+Definition n_ch (x : N * N * N * N) : N := snd (fst x).
+Definition n_cr (x : N * N * N * N) : N := snd x.
+
+Definition sadv (a b : stores) : Prop :=
+  (forall h x, In (h, x) (sr_hdrs a) -> In (h, x) (sr_hdrs b)) /\
+  n_vh (sr_nhr a) <= n_vh (sr_nhr b) /\ n_ch (sr_nhr a) <= n_ch (sr_nhr b) /\
+  (n_vh (sr_nhr b) = n_vh (sr_nhr a) ->
+     n_ch (sr_nhr b) = n_ch (sr_nhr a) /\ n_cr (sr_nhr b) = n_cr (sr_nhr a) /\
+     rsteps (n_vr (sr_nhr a)) (n_vr (sr_nhr b))).
+
+Lemma sadv_refl a : sadv a a.
+Proof. repeat split; try lia; auto. apply rs_refl. Qed.
+
+Lemma sadv_trans a b c : sadv a b -> sadv b c -> sadv a c.
+Proof.
+  intros (A1&A2&A3&A4) (B1&B2&B3&B4). unfold sadv.
+  split; [auto|]. split; [lia|]. split; [lia|].
+  intros E. assert (Hb : n_vh (sr_nhr b) = n_vh (sr_nhr a)) by lia.
+  assert (Hc : n_vh (sr_nhr c) = n_vh (sr_nhr b)) by lia.
+  destruct (A4 Hb) as (X1&X2&X3). destruct (B4 Hc) as (Y1&Y2&Y3).
+  split; [lia|]. split; [lia|]. eapply rsteps_trans; eassumption.
+Qed.
+
+Lemma adv_sadv ih ivs s s' : cinv ih ivs s -> cinv ih ivs s' -> adv s s' -> sadv (stores_of s) (stores_of s').
+Proof.
+  intros (_&_&_&_&_&Hn&_) (_&_&_&_&_&Hn'&_) (A1&A2&A3&A4).
+  unfold sadv, stores_of. cbn [sr_hdrs sr_nhr]. rewrite Hn, Hn'. unfold n_vh, n_vr, n_ch, n_cr. cbn [fst snd].
+  split; [exact A1|]. split; [exact A2|]. split; [exact A3|exact A4].
+Qed.
+
 Definition pref (ih : N) (ivs : valset) (s s' : kstate) : Prop :=
   exists ws, st_log s' = st_log s ++ ws /\ stores_of s' = fold_left apply_wr ws (stores_of s) /\
-    forall k, ends_hdr (firstn k ws) = false -> SI ih ivs (fold_left apply_wr (firstn k ws) (stores_of s)).
+    forall k, ends_hdr (firstn k ws) = false ->
+      SI ih ivs (fold_left apply_wr (firstn k ws) (stores_of s)) /\
+      sadv (stores_of s) (fold_left apply_wr (firstn k ws) (stores_of s)) /\
+      sadv (fold_left apply_wr (firstn k ws) (stores_of s)) (stores_of s').
 
 Lemma pref_quiet ih ivs s s' : st_log s' = st_log s -> stores_of s' = stores_of s ->
   SI ih ivs (stores_of s) -> pref ih ivs s s'.
 Proof.
   intros L S H. exists []. rewrite app_nil_r. split; [exact L|]. split; [exact S|].
-  intros k _. rewrite firstn_nil. exact H.
+  intros k _. rewrite firstn_nil. cbn [fold_left]. rewrite S. split; [exact H|]. split; apply sadv_refl.
 Qed.
 
 Lemma pref_refl ih ivs s : SI ih ivs (stores_of s) -> pref ih ivs s s.
@@ -38,23 +74,25 @@ Proof. apply pref_quiet; reflexivity. Qed.
 
 Lemma pref_one ih ivs s s' w :
   st_log s' = st_log s ++ [w] -> stores_of s' = apply_wr (stores_of s) w ->
-  SI ih ivs (stores_of s) -> SI ih ivs (stores_of s') -> pref ih ivs s s'.
+  SI ih ivs (stores_of s) -> SI ih ivs (stores_of s') -> sadv (stores_of s) (stores_of s') -> pref ih ivs s s'.
 Proof.
-  intros L S H H'. exists [w]. split; [exact L|]. split; [exact S|].
-  intros [|k] _; cbn [firstn fold_left]; [exact H|]. rewrite firstn_nil. cbn [fold_left]. rewrite <- S. exact H'.
+  intros L S H H' A. exists [w]. split; [exact L|]. split; [exact S|].
+  intros [|k] _; cbn [firstn fold_left].
+  - split; [exact H|]. split; [apply sadv_refl|exact A].
+  - rewrite firstn_nil. cbn [fold_left]. rewrite <- S. split; [exact H'|]. split; [exact A|apply sadv_refl].
 Qed.
 
 (** the commit: the committed-header write followed by the position write *)
 Lemma pref_commit ih ivs s s' h x nhr :
   st_log s' = (st_log s ++ [WHdr h x]) ++ [WNhr nhr] ->
   stores_of s' = apply_wr (apply_wr (stores_of s) (WHdr h x)) (WNhr nhr) ->
-  SI ih ivs (stores_of s) -> SI ih ivs (stores_of s') -> pref ih ivs s s'.
+  SI ih ivs (stores_of s) -> SI ih ivs (stores_of s') -> sadv (stores_of s) (stores_of s') -> pref ih ivs s s'.
 Proof.
-  intros L S H H'. exists [WHdr h x; WNhr nhr]. split; [rewrite L, <- app_assoc; reflexivity|]. split; [exact S|].
+  intros L S H H' A. exists [WHdr h x; WNhr nhr]. split; [rewrite L, <- app_assoc; reflexivity|]. split; [exact S|].
   intros [|[|k]] E; cbn [firstn fold_left] in *.
-  - exact H.
+  - split; [exact H|]. split; [apply sadv_refl|exact A].
   - discriminate E.
-  - rewrite firstn_nil. cbn [fold_left]. rewrite <- S. exact H'.
+  - rewrite firstn_nil. cbn [fold_left]. rewrite <- S. split; [exact H'|]. split; [exact A|apply sadv_refl].
 Qed.
 
 Lemma ends_hdr_app a b : b <> [] -> ends_hdr (a ++ b) = ends_hdr b.
@@ -64,20 +102,29 @@ Proof.
   apply (f_equal (@rev wr)) in E. rewrite rev_involutive in E. cbn in E. contradiction.
 Qed.
 
+Lemma pref_ends ih ivs a b : pref ih ivs a b -> sadv (stores_of a) (stores_of b).
+Proof.
+  intros (w&L&S&P). destruct (P 0%nat) as (_&_&H); [reflexivity|]. cbn [firstn fold_left] in H. exact H.
+Qed.
+
 Lemma pref_trans ih ivs a b c : pref ih ivs a b -> pref ih ivs b c -> pref ih ivs a c.
 Proof.
-  intros (w1&L1&S1&P1) (w2&L2&S2&P2). exists (w1 ++ w2).
+  intros Hab Hbc. pose proof (pref_ends _ _ _ _ Hab) as Aab. pose proof (pref_ends _ _ _ _ Hbc) as Abc.
+  destruct Hab as (w1&L1&S1&P1). destruct Hbc as (w2&L2&S2&P2). exists (w1 ++ w2).
   split; [rewrite L2, L1, app_assoc; reflexivity|].
   split; [rewrite S2, S1, fold_left_app; reflexivity|].
   intros k Hk. rewrite firstn_app in *.
   destruct (firstn (k - List.length w1) w2) as [|x l] eqn:E.
-  - rewrite app_nil_r in *. apply P1. exact Hk.
+  - rewrite app_nil_r in *. destruct (P1 k Hk) as (Q1&Q2&Q3).
+    split; [exact Q1|]. split; [exact Q2|eapply sadv_trans; eassumption].
   - assert (Hlen : (List.length w1 <= k)%nat).
     { destruct (Nat.le_gt_cases (List.length w1) k) as [Hle|Hgt]; [exact Hle|].
       replace (k - List.length w1)%nat with 0%nat in E by lia. discriminate E. }
     rewrite (firstn_all2 w1) in * by exact Hlen.
-    rewrite fold_left_app, <- S1, <- E. apply P2. rewrite E.
-    rewrite ends_hdr_app in Hk by discriminate. exact Hk.
+    rewrite fold_left_app, <- S1, <- E.
+    destruct (P2 (k - List.length w1)%nat) as (Q1&Q2&Q3).
+    { rewrite E. rewrite ends_hdr_app in Hk by discriminate. exact Hk. }
+    split; [exact Q1|]. split; [eapply sadv_trans; eassumption|exact Q3].
 Qed.
 
 (** * Round-store cells *)
@@ -189,7 +236,8 @@ Proof.
   assert (HX' : X ih ivs (update_observers (increment_voting_round s))) by (apply X_increment; [exact (proj1 HI)|exact HX]).
   split.
   - split; [apply INV_increment; exact HI|]. split; [apply pok_increment; exact HP|exact HX'].
-  - eapply pref_one; [reflexivity|reflexivity|exact (proj2 (proj2 (proj2 (proj2 HX))))|exact (proj2 (proj2 (proj2 (proj2 HX'))))].
+  - eapply pref_one; [reflexivity|reflexivity|exact (proj2 (proj2 (proj2 (proj2 HX))))|exact (proj2 (proj2 (proj2 (proj2 HX'))))|].
+    eapply adv_sadv; [exact (proj1 HI)|apply cinv_increment; exact (proj1 HI)|eapply adv_increment; exact (proj1 HI)].
 Qed.
 
 Lemma K_advance ih ivs s : K ih ivs s -> K ih ivs (advance_voting_round s) /\ pref ih ivs s (advance_voting_round s).
@@ -302,7 +350,8 @@ Proof.
   split; [split; [exact HI'|split; [exact HP'|exact HX']]|].
   apply (pref_commit ih ivs s _ (hd_height (ph_hdr p)) (ph_hdr p, pcp)
            (wrap64 (v_h (k_vot s) + 1), 0, v_h (k_vot s), v_r (k_vot s)));
-    [reflexivity|reflexivity| |exact (proj2 (proj2 (proj2 (proj2 HX'))))].
+    [reflexivity|reflexivity| |exact (proj2 (proj2 (proj2 (proj2 HX'))))|
+     eapply adv_sadv; [exact Hc|exact (proj1 HI')|eapply adv_shift; eassumption]].
   exists (v_h (k_vot s)), (v_r (k_vot s)), (v_h (k_com s)), (v_r (k_com s)).
   unfold stores_of. cbn [sr_nhr sr_hdrs sr_rounds sr_replayed].
   split; [exact Hnhr|]. repeat (split; [assumption|]). assumption.
@@ -385,7 +434,7 @@ Proof.
   split.
   - split; [eapply INV_frame_rounds; [exact F|reflexivity|reflexivity|reflexivity|exact HI]|].
     split; [exact HP|]. split; [exact Xc|]. split; [exact Xn|]. split; [exact X1|]. split; [exact Xk|exact HS'].
-  - eapply pref_one; [reflexivity|reflexivity|exact Xs|exact HS'].
+  - eapply pref_one; [reflexivity|reflexivity|exact Xs|exact HS'|rewrite Es; apply sadv_refl].
 Qed.
 
 (** * Clean restart and restart on any store satisfying [SI] *)
